@@ -116,6 +116,9 @@ type Session struct {
 	// the segment's one-party-at-a-time contract requires — which held pointer
 	// to resolve and free next (-1: none now). Everything still held is
 	// resolved and freed, in ReleaseNow's order, before the client disconnects.
+	// EarlyEnd (set by a check before judging): streams, by nonce, that the
+	// server ended early because their per-call context was cancelled.
+	EarlyEnd map[int64]bool
 	// AdvertiseBogus decides per call (that does not advertise the real segment)
 	// whether the request advertises a segment the server cannot attach.
 	AdvertiseBogus func(op *Op) bool
